@@ -4,6 +4,7 @@ package main
 
 import (
 	"bufio"
+	"bytes"
 	"context"
 	"encoding/json"
 	"errors"
@@ -35,6 +36,24 @@ type c39Call struct {
 	id     uint64
 	done   chan string
 	cancel context.CancelFunc
+}
+
+var c39TimedOut bool
+
+// c39Await waits for a call's goroutine to report, with a deadline (a caller that does not honour its
+// context must not hang the harness).
+func c39Await(ch chan string) string {
+	limit := 3 * time.Second
+	if c39TimedOut {
+		limit = 100 * time.Millisecond
+	}
+	select {
+	case r := <-ch:
+		return r
+	case <-time.After(limit):
+		c39TimedOut = true
+		return "caller-stuck"
+	}
 }
 
 type c39Stalled struct {
@@ -114,7 +133,7 @@ func init() {
 				stalledCalls = map[int][]c39Stalled{}
 				for _, c := range calls {
 					c.cancel()
-					<-c.done
+					c39Await(c.done)
 				}
 				calls = nil
 				w.resetPeers()
@@ -130,7 +149,6 @@ func init() {
 				// send: the request frame is written at once. sendstall: the write to the next hop stalls until
 				// `release`. sendfail: the write fails.
 				t := c16Atoi39(f[1])
-				before, _ := agent.C39Control(w.a)
 				var gate chan error
 				if f[0] != "send" && w.bufs[t] != nil {
 					gate = make(chan error, 1)
@@ -139,6 +157,14 @@ func init() {
 					w.bufs[t].mu.Unlock()
 					if f[0] == "sendfail" {
 						gate <- fmt.Errorf("verif: write to peer failed")
+					}
+				}
+				// a gate that no write consumed must not catch a later, unrelated write to that peer
+				disarm := func() {
+					if w.bufs[t] != nil {
+						w.bufs[t].mu.Lock()
+						w.bufs[t].gate = nil
+						w.bufs[t].mu.Unlock()
 					}
 				}
 				ctx, cancel := context.WithCancel(context.Background())
@@ -156,25 +182,29 @@ func init() {
 					c.done <- fmt.Sprintf("deliver:%d:%s:%s", resp.RequestID, c39OK(resp.Success), c39Tag(resp.Data))
 				}()
 				// the call fails at once, or registers a pending request and (unless stalled) writes the frame
-				deadline := time.Now().Add(8 * time.Second)
+				limit := 8 * time.Second
+				if c39TimedOut { // a broken tree: later waits give up quickly
+					limit = 100 * time.Millisecond
+				}
+				deadline := time.Now().Add(limit)
 				for {
 					select {
 					case r := <-c.done:
 						cancel()
+						disarm()
 						return dump([]string{r})
 					default:
 					}
-					after, _ := agent.C39Control(w.a)
-					written := w.bufs[t] != nil && w.bufs[t].Len() > 0
+					written := f[0] == "send" && w.bufs[t] != nil && w.bufs[t].Len() > 0
 					stalled := f[0] == "sendstall" && w.bufs[t] != nil && w.bufs[t].isWaiting()
-					if len(after) > len(before) && (written || stalled) {
-						for _, x := range after {
-							found := false
-							for _, y := range before {
-								found = found || x == y
-							}
-							if !found {
-								c.id = x
+					if written || stalled {
+						// the id the agent gave this request: read it off the frame, or (stalled) off the counter
+						c.id = agent.C39NextID(w.a)
+						if written {
+							if fr, err := protocol.NewFrameReader(bytes.NewReader(w.bufs[t].peek())).Read(); err == nil {
+								if rq, err := protocol.DecodeControlRequest(fr.Payload); err == nil {
+									c.id = rq.RequestID
+								}
 							}
 						}
 						calls = append(calls, c)
@@ -184,6 +214,9 @@ func init() {
 						return dump(nil)
 					}
 					if time.Now().After(deadline) {
+						c39TimedOut = true
+						cancel()
+						disarm()
 						panic("send: neither failed nor registered")
 					}
 					time.Sleep(100 * time.Microsecond)
@@ -197,9 +230,14 @@ func init() {
 				stalledCalls[t] = stalledCalls[t][1:]
 				if f[2] == "ok" {
 					sc.gate <- nil
-					deadline := time.Now().Add(8 * time.Second)
+					limit := 8 * time.Second
+					if c39TimedOut {
+						limit = 100 * time.Millisecond
+					}
+					deadline := time.Now().Add(limit)
 					for w.bufs[t] == nil || w.bufs[t].Len() == 0 {
 						if time.Now().After(deadline) {
+							c39TimedOut = true
 							panic("release: frame not written")
 						}
 						time.Sleep(100 * time.Microsecond)
@@ -208,11 +246,7 @@ func init() {
 				}
 				sc.gate <- fmt.Errorf("verif: write to peer failed")
 				var got string
-				select {
-				case got = <-sc.c.done:
-				case <-time.After(8 * time.Second):
-					got = "release-timeout"
-				}
+				got = c39Await(sc.c.done)
 				sc.c.cancel()
 				for i, c := range calls {
 					if c == sc.c {
@@ -234,7 +268,7 @@ func init() {
 				for i, c := range calls {
 					if c.id == id {
 						c.cancel()
-						got := <-c.done
+						got := c39Await(c.done)
 						calls = append(calls[:i], calls[i+1:]...)
 						return dump([]string{fmt.Sprintf("%s:%d", got, id)})
 					}
